@@ -88,8 +88,10 @@ def flows_to_return(b, start_local):
             t = blk['term']
             if t['k'] == 'call' and any(a['k'] in ('copy', 'move') and a['pl']['l'] in S for a in t['args']):
                 q = callee_q(t) if 'q' in t['callee'] else ''
-                name = q.split('::')[-1]
-                if name in ('freeze', 'from', 'into', 'new', 'Some', 'Ok') or q.startswith('bitar::chunk::Chunk'):
+                # the value is handed to a function: it lives on in the result unless that is `()` / the call is a drop
+                dty = b.lty(t['dest']['l'])
+                unit = dty.get('k') == 'tuple' and not dty.get('args') or dty.get('k') == 'never'
+                if q not in ('core::mem::drop', 'core::mem::forget') and not unit:
                     d = t['dest']['l']
                     if d not in S:
                         S.add(d)
